@@ -106,7 +106,78 @@ let site_of (c : string) : string =
   | ["mpread"; len; _; _; _] -> if len = "0" then "MultiPassReader-empty-source" else "MultiPassReader"
   | ["grpcjson"; _; file] -> if file = "-" then "grpcjson-empty-file" else "grpcjson-start-loop"
   | "cfg" :: _ -> "scenario-config-DecodeMap"
+  | "clicfg" :: _ -> "cli-readConfig"
   | _ -> "unknown"
+
+(* ---- round 8: config value trees (case kind clicfg) ---- *)
+let rawhex (l : n list) : string = String.concat "" (List.map (fun b -> Printf.sprintf "%02x" (int_of_n b)) l)
+
+let parse_cval (s : string) : cval option =
+  let n = String.length s in
+  let p = ref 0 in
+  let exception Bad in
+  let word stops =
+    let st = !p in
+    while !p < n && not (String.contains stops s.[!p]) do incr p done;
+    String.sub s st (!p - st) in
+  let rec value () =
+    if !p >= n then raise Bad;
+    let c = s.[!p] in
+    incr p;
+    match c with
+    | 'n' -> CNull
+    | 'T' -> CBool true
+    | 'F' -> CBool false
+    | 'i' -> (try CInt (z_of_string (word ",)=")) with _ -> raise Bad)
+    | 's' -> CStr (bytes_of_hex (word ",)="))
+    | 'L' | 'M' ->
+        if !p >= n || s.[!p] <> '(' then raise Bad;
+        incr p;
+        let items = ref [] and first = ref true and fin = ref false in
+        while not !fin do
+          if !p >= n then raise Bad;
+          if s.[!p] = ')' then (incr p; fin := true)
+          else begin
+            if not !first then (if s.[!p] <> ',' then raise Bad; incr p);
+            first := false;
+            if c = 'M' then begin
+              let k = bytes_of_hex (word "=") in
+              if !p >= n then raise Bad;
+              incr p;
+              let v = value () in
+              items := (k, v) :: !items
+            end else begin
+              let v = value () in
+              items := ([], v) :: !items
+            end
+          end
+        done;
+        let l = List.rev !items in
+        if c = 'M' then CMap l else CList (List.map snd l)
+    | _ -> raise Bad in
+  try let v = value () in if !p = n then Some v else None with Bad -> None
+
+let rec token_of (v : cval) : string =
+  match v with
+  | CNull -> "n"
+  | CBool true -> "T"
+  | CBool false -> "F"
+  | CInt z -> "i" ^ string_of_z z
+  | CStr b -> "s" ^ rawhex b
+  | CList l -> "L(" ^ String.concat "," (List.map token_of l) ^ ")"
+  | CMap m -> "M(" ^ String.concat "," (List.map (fun (k, v) -> rawhex k ^ "=" ^ token_of v) m) ^ ")"
+
+(* config.DecodeAndValidate on a settings tree: mapstructure + validator + the plugin registry are an oracle *)
+let cli_decode (s : (n list * cval) list) : string rres =
+  let tok = token_of (CMap s) in
+  match ask "clidec" (List.init (String.length tok) (fun i -> n_of_int (Char.code tok.[i]))) with
+  | None -> VErr
+  | Some "err" -> VErr
+  | Some "panic" -> VPanic
+  | Some a -> VOk a
+
+(* the type assertions of the pre-pass in cli.readConfig: checked (comma-ok form) in the code the model follows *)
+let cli_checked = true
 
 (* config.ReadAmmoConfig: the lower-cased file name's suffix selects the parser *)
 let sfmt_of (ext : string) : sfmt =
@@ -722,6 +793,24 @@ let rec predict_inner (c : string) (obs : string) : string * string * bool =
         | GErr :: _ -> ["err"]
         | GSpin :: _ -> ["hang"] in
       safe (String.concat " " (pr 0 rs))
+  | ["clicfg"; _; tree] ->
+      (* the top-level config file through the real CLI reader (child process).  Prediction: the reader model
+         (read, discard_overflow pre-pass with its type assertions, decoder = oracle).  Verdict by the SPECIFICATION
+         cli_expected: a document that is no mapping, has no `pools` list of mappings, or an ill-typed log /
+         monitoring section must be rejected with an error; otherwise the answer is the decoder's on the tree with
+         discard_overflow: true written into the pools that do not set it (C13_cli_reader_meets_spec) *)
+      (match parse_cval tree with
+       | None -> ("unparsable", "ok", false)
+       | Some top ->
+           let show = (function VOk a -> a | VErr -> "err" | VPanic -> "panic") in
+           let p = show (cli_read cli_checked cli_decode top) in
+           let e = show (cli_expected cli_decode top) in
+           let st = status_of_first obs in
+           (p,
+            (if bad_status st then "BAD:" ^ site_of c ^ " outcome " ^ st
+             else if e = "err" && obs <> "err" then "BAD:" ^ site_of c ^ " malformed-config-not-rejected outcome " ^ st
+             else if e <> obs then "BAD:" ^ site_of c ^ " wellformed-config-answer expected " ^ e
+             else "ok"), true))
   | ["cfg"; _] ->
       (* third-party YAML + mapstructure: fuzzed for real, not modelled *)
       safe obs
